@@ -1164,7 +1164,7 @@ proof {  assert forall|v: f64| encode_utf8(rv@) == encode_utf8(f64_text(v)) impl
             }
             8 => {
                 let k = self.read_string();
-                let id = self.read_usize();
+                let id = self.read_u8() as usize;
                 Data::Source(SourceCode::new(k.as_str(), id))
             }
             9 => Data::None(),
